@@ -2,6 +2,7 @@ import SnaxVerif.Lemmas.SchedWF
 import SnaxVerif.Lemmas.SchedFromMap
 import SnaxVerif.Lemmas.Fuel
 import SnaxVerif.Lemmas.First
+import SnaxVerif.Lemmas.EndToEnd
 /-!
 # C03 — scheduling preserves the iteration space
 
@@ -118,6 +119,29 @@ theorem C03_autoflow_first (sizes : List Nat) (tmpl : Template) (fuel : Nat) (s 
   have := C03_first matchesQ _ tmpl fuel (canonicalize s) 1 r (WF_maskSched hwf) h
   rw [canonicalize_image_eq s] at this
   exact this
+
+/-! ### the pass step end to end: from the maps of `dart.operation` to the maps written into `dart.schedule` -/
+
+/-- **End-to-end statement of C03 for the `dart-scheduler` pass step.**  Take the operation's iteration bounds and
+its indexing maps (any number of operands, any affine result expressions: every product has a dimension-free side);
+build the patterns with `from_affine_map` (`BuiltFrom`), run `AutoflowScheduler` (canonicalize + lazy first result
+of the search under both constraints) and write the result back with `to_affine_map` (`emittedMaps`).  Then the
+affine maps WRITTEN into `dart.schedule`, evaluated over the schedule's bounds, visit a permutation of the
+operand-index tuples that the maps READ from `dart.operation` visit over the operation's bounds. -/
+theorem C03_pass_end_to_end (sizes : List Nat) (tmpl : Template) (fuel : Nat)
+    (bounds : List Nat) (maps : List (List AExpr)) (ops : List Operand) (r : Schedule)
+    (hb : BuiltFrom bounds.length maps ops) (mulConstSide_clause : ∀ rs ∈ maps, ∀ e ∈ rs, AT.mulConstSide e = true)
+    (hwf : WF ⟨bounds, ops⟩) (h : autoflowFirst sizes tmpl fuel ⟨bounds, ops⟩ = .ok (some r)) :
+    (trueImage r.bounds (emittedMaps r)).Perm (trueImage bounds maps) := by
+  rw [emitted_image r, ← imageS_built bounds maps ops hb mulConstSide_clause]
+  exact (C03_autoflow_first sizes tmpl fuel ⟨bounds, ops⟩ r hwf h).2
+
+/-- non-vacuity: a 16-element element-wise operation `(d0) -> (d0)` on the 4-lane template is emitted as
+`(d0, d1) -> (d0 * 4 + d1)` over bounds (4, 4) -/
+example : autoflowFirst [8] ⟨[some 4], [⟨[[1]], [0]⟩]⟩ 8 ⟨[16], [⟨[[1]], [0]⟩]⟩ = .ok (some ⟨[4, 4], [⟨[[4, 1]], [0]⟩]⟩) ∧
+    emittedMaps ⟨[4, 4], [⟨[[4, 1]], [0]⟩]⟩ = [[.bin .add (.bin .mul (.dim 0) (.const 4)) (.dim 1)]] ∧
+    BuiltFrom 1 [[.dim 0]] [⟨[[1]], [0]⟩] :=
+  ⟨by decide +kernel, by decide +kernel, ⟨[⟨1, [[1]], [0]⟩], rfl, rfl⟩⟩
 
 /-! ### the fuel of the model is adequate and irrelevant (the Python recursion has none) -/
 
